@@ -48,4 +48,17 @@ theorem evalTable_nil (d : Nat) (t : Table) (h : Hook) (p : Packet) : evalTable 
   simp [evalTable, chainOf, evalRules]
 
 
+/-- The nat theorems for a packet of the same family as `p` (e.g. `p` re-marked by mangle). -/
+theorem nat_prerouting_correct' (c : Config) (p q : Packet) (d : Nat) (h : famOn c p.fam = true) (hq : q.v6 = p.v6) :
+    evalTable (d + 2) (rulesOf c p.fam) .nat .prerouting q = natPreroutingSpec c q := by
+  have e : q.fam = p.fam := by simp [Packet.fam, hq]
+  rw [← e] at h ⊢
+  exact nat_prerouting_correct c q d h
+
+theorem nat_output_correct' (c : Config) (p q : Packet) (d : Nat) (h : famOn c p.fam = true) (hq : q.v6 = p.v6) :
+    evalTable (d + 2) (rulesOf c p.fam) .nat .output q = natOutputSpec c q := by
+  have e : q.fam = p.fam := by simp [Packet.fam, hq]
+  rw [← e] at h ⊢
+  exact nat_output_correct c q d h
+
 end IstioModel.C20
